@@ -23,6 +23,7 @@ type FakeCarrier struct {
 	In             chan []byte   // packets handed to ReadFrom
 	ReadFail       chan struct{} // closed by the environment: ReadFrom fails from then on
 	WriteFailAfter int           // number of successful WriteTo calls before the write side fails (-1: never)
+	WriteStall     chan struct{} // if not nil: WriteTo waits until it is closed (a congested carrier)
 	closed         chan struct{}
 	closeOnce      sync.Once
 
@@ -67,6 +68,13 @@ func (c *FakeCarrier) ReadFrom(p []byte) (int, net.Addr, error) {
 }
 
 func (c *FakeCarrier) WriteTo(p []byte, addr net.Addr) (int, error) {
+	if c.WriteStall != nil {
+		select {
+		case <-c.WriteStall:
+		case <-c.closed:
+			return 0, errFakeClosed
+		}
+	}
 	select {
 	case <-c.closed:
 		return 0, errFakeClosed
